@@ -234,6 +234,27 @@ func init() {
 		}
 		return strconv.Itoa(b2i(ok))
 	}
+	// threatstack: the detector on a position that lives in a search-stack frame: p --m1--> A (frame 1) --pass--> B
+	// (frame 2), then a sibling of A is generated into frame 1 (as a search does when it moves on), and the detector is
+	// asked about B.  The required answer is the detector's answer for B's position, however it is stored.
+	opTable["threatstack"] = func(s *Session, a []string) string {
+		p := decPos(a[0])
+		f1, f2 := tak.Alloc(p.Size()), tak.Alloc(p.Size())
+		A, err := p.MovePreallocated(decMove(a[1]), f1)
+		if err != nil {
+			return "err"
+		}
+		B, err := A.MovePreallocated(tak.Move{Type: tak.Pass}, f2)
+		if err != nil {
+			return "err"
+		}
+		if _, err := p.MovePreallocated(decMove(a[2]), f1); err != nil {
+			p.MovePreallocated(tak.Move{Type: tak.Pass}, f1)
+		}
+		c := bitboard.Precompute(uint(B.Size()))
+		wp, wt, bp, bt := ai.CountThreats(&c, B)
+		return strconv.Itoa(wp) + " " + strconv.Itoa(wt) + " " + strconv.Itoa(bp) + " " + strconv.Itoa(bt) + " " + threatReal(B)
+	}
 	opTable["threatreal"] = func(s *Session, a []string) string { return threatReal(decPos(a[0])) }
 	opTable["sthreatreal"] = opTable["threatreal"]
 	// is there a one-ply road win at all (for the under-count statistics and as a tie on win detection)
